@@ -1,11 +1,12 @@
 package main
 
 import (
-	"sort"
-	"go/constant"
 	"go/ast"
+	"go/constant"
 	"go/token"
 	"go/types"
+	"golang.org/x/tools/go/cfg"
+	"sort"
 	"strings"
 )
 
@@ -111,13 +112,38 @@ func c11KeyAgreement(c *Check) {
 				return false, false
 			})
 		}
+		// splitDomainOf: local y is the domain result of address.Split(sender) (its only definition)
+		splitDomainOf := func(y types.Object) bool {
+			found, n := false, 0
+			ast.Inspect(r.FI.Decl.Body, func(x ast.Node) bool {
+				a2, ok := x.(*ast.AssignStmt)
+				if !ok {
+					return true
+				}
+				for i, l := range a2.Lhs {
+					if objOf(info, l) != y {
+						continue
+					}
+					n++
+					if len(a2.Lhs) == 3 && len(a2.Rhs) == 1 && i == 1 {
+						if sc, isC := ast.Unparen(a2.Rhs[0]).(*ast.CallExpr); isC && isCall(info, sc, "~/framework/address.Split") && len(sc.Args) == 1 && isSender(sc.Args[0]) {
+							found = true
+						}
+					}
+				}
+				return true
+			})
+			return found && n == 1
+		}
 		msg := ""
 		if dom == nil || dom.IsField() {
 			msg = "undecided: the key argument is not a local variable"
 		} else {
 			kinds := func(empty bool) (sawEmpty, sawSplit, sawOther bool) {
 				w := world(empty)
-				isDef := func(q Pt) bool { return q.Node() != nil && assignsObj(info, q.Node(), dom) }
+				isDef := func(q Pt) bool {
+					return q.Node() != nil && (assignsObj(info, q.Node(), dom) || isZeroStringDecl(info, q.Node(), dom))
+				}
 				for _, dp := range r.F.Points() {
 					if dp.Node() == nil || !isDef(dp) {
 						continue
@@ -130,9 +156,13 @@ func c11KeyAgreement(c *Check) {
 					}
 					as, _ := dp.Node().(*ast.AssignStmt)
 					switch {
+					case as == nil && isZeroStringDecl(info, dp.Node(), dom):
+						sawEmpty = true
 					case as != nil && len(as.Rhs) == 1 && len(as.Lhs) == 1:
 						if sv, ok := constString(info, as.Rhs[0]); ok && sv == "" {
 							sawEmpty = true
+						} else if y := objOf(info, as.Rhs[0]); y != nil && splitDomainOf(y) {
+							sawSplit = true // `_, d, err := Split(sender); domain = d`
 						} else {
 							sawOther = true
 						}
@@ -1114,7 +1144,6 @@ func c11StalenessIn(c *Check, rule string, rels []string) {
 	}
 }
 
-
 // c11AddrKey: the address argument of a TakeMsg / ReleaseMsg call is the peer's IP exactly when the connection has a
 // TCP address, and the loopback stand-in otherwise. Decided by a small abstract evaluation of the argument in three
 // model worlds – "TCP peer" (every *net.TCPAddr assertion on a net.Addr succeeds, connection and address present),
@@ -1163,6 +1192,28 @@ func c11IsTCPAssert(info *types.Info, e ast.Expr) bool {
 }
 
 func c11AddrWorld(r *RuleCtx, okV, present bool) func(b *cfgBlock, i int) bool {
+	w := c11AddrWorld0(r, okV, present)
+	info := r.Info
+	return func(b *cfgBlock, i int) bool {
+		// `switch a := addr.(type) { case *net.TCPAddr: … }`: the clause is entered exactly for a TCP peer
+		// (go/cfg does not list the case types of a type switch: the clause is read off the successor block)
+		if len(b.Succs) == 2 && b.Succs[0].Kind == cfg.KindSwitchCaseBody {
+			if cc, isCC := b.Succs[0].Stmt.(*ast.CaseClause); isCC && len(cc.List) == 1 {
+				if tv, ok := info.Types[cc.List[0]]; ok && tv.IsType() {
+					if p, isPtr := tv.Type.(*types.Pointer); isPtr && typeIs(p.Elem(), "net", "TCPAddr") {
+						if i == 0 {
+							return !okV
+						}
+						return okV
+					}
+				}
+			}
+		}
+		return w(b, i)
+	}
+}
+
+func c11AddrWorld0(r *RuleCtx, okV, present bool) func(b *cfgBlock, i int) bool {
 	info := r.Info
 	body := r.F.Body
 	return r.F.World(func(atom ast.Expr) (bool, bool) {
@@ -1255,6 +1306,26 @@ func c11AbsAddr(r *RuleCtx, at Pt, e ast.Expr, okV, present bool, depth int) map
 		o, isVar := info.Uses[x].(*types.Var)
 		if !isVar || o.IsField() {
 			break
+		}
+		// the variable of a type-switch clause `case *net.TCPAddr`
+		implicit := false
+		ast.Inspect(r.F.Body, func(n ast.Node) bool {
+			if cc, ok := n.(*ast.CaseClause); ok && info.Implicits[cc] == types.Object(o) {
+				implicit = true
+			}
+			return !implicit
+		})
+		if implicit {
+			if p, isPtr := o.Type().(*types.Pointer); isPtr && typeIs(p.Elem(), "net", "TCPAddr") {
+				if okV {
+					out["peer"] = true
+				} else {
+					out["zero"] = true
+				}
+				return out
+			}
+			out["other"] = true
+			return out
 		}
 		world := c11AddrWorld(r, okV, present)
 		isDef := func(q Pt) bool {
@@ -1507,4 +1578,23 @@ func (r *RuleCtx) IsNormalExitNonNil(info *types.Info) func(Pt) bool {
 		}
 		return !isNilIdent(info, ret.Results[len(ret.Results)-1])
 	}
+}
+
+// isZeroStringDecl: `var v string` (or `var v = ""`).
+func isZeroStringDecl(info *types.Info, n ast.Node, v types.Object) bool {
+	vs, ok := n.(*ast.ValueSpec)
+	if !ok {
+		return false
+	}
+	for i, nm := range vs.Names {
+		if info.Defs[nm] != v {
+			continue
+		}
+		if i >= len(vs.Values) {
+			return true
+		}
+		sv, isC := constString(info, vs.Values[i])
+		return isC && sv == ""
+	}
+	return false
 }
